@@ -90,6 +90,9 @@ func optsFor(prop string) GenOpts {
 	case "C09":
 	case "C01":
 		o.PPred, o.PEnd = 0.4, 0.7
+	case "C20":
+		o.ModSubset, o.PParallel, o.PWrap, o.PEmitters = true, 0, 0, 0
+		o.Spellings = []string{"lit", "lit", "top", "funcvar", "method", "callret"}
 	}
 	return o
 }
@@ -357,6 +360,20 @@ func runCase(p *PackageSpec, prop string, scn int, race bool, tag string, replay
 		}
 		return out
 	}
+	if p.Twin {
+		o, code, to = run(mod, 120*time.Second, *flagCff, "-genmode=modifier", "vcase/pm")
+		switch {
+		case to:
+			out.inconclusive = "cff timed out"
+			return out
+		case code != 0 && crashed(o, code):
+			fail("cff", "C13", "the cff tool crashed in modifier mode", o)
+			return out
+		case code != 0:
+			fail("cff", "C20", "modifier mode rejected a flow of the supported subset that base mode accepts", o)
+			return out
+		}
+	}
 	// inner driver
 	in := filepath.Join(dir, "inner")
 	os.MkdirAll(in, 0o755)
@@ -371,6 +388,9 @@ func runCase(p *PackageSpec, prop string, scn int, race bool, tag string, replay
 		}
 		os.WriteFile(filepath.Join(in, n), b, 0o644)
 	}
+	if p.Twin {
+		os.WriteFile(filepath.Join(in, "twin_test.go"), []byte("package inner\n\nimport _ \"vcase/pm\"\n"), 0o644)
+	}
 	bargs := []string{"test", "-c", "-o", filepath.Join(dir, "inner.test")}
 	if race {
 		bargs = append(bargs, "-race")
@@ -382,7 +402,9 @@ func runCase(p *PackageSpec, prop string, scn int, race bool, tag string, replay
 		return out
 	}
 	if code != 0 {
-		if strings.Contains(o, "vcase/p") || strings.Contains(o, "_gen.go") {
+		if strings.Contains(o, "vcase/pm") {
+			fail("build", "C20", "modifier-mode output does not compile", o)
+		} else if strings.Contains(o, "vcase/p") || strings.Contains(o, "_gen.go") {
 			fail("build", "C13", "cff succeeded but its output does not compile", o)
 		} else {
 			out.inconclusive = "inner driver build failed: " + tailStr(o, 1500)
@@ -531,6 +553,7 @@ func TestBin(t *testing.T) {
 	o := optsFor(prop)
 	rapid.Check(t, func(rt_ *rapid.T) {
 		p := GenPackage(rt_, o, nfiles, perFile)
+		p.Twin = prop == "C20"
 		oc := runCase(p, prop, *flagScn, race, fmt.Sprint(*flagShard), "")
 		if oc.inconclusive != "" {
 			if *flagOut != "" {
